@@ -59,7 +59,8 @@ def run_pickle(spec, R):
 
 def _atoms():
     ja = gens.ja_atoms()
-    return gens.en_atoms(feats=FEATS, bases=('S', 'NP', 'N'), punct=('conj', ',')) + ja[:2] + ja[4:6] + ja[7:9] + ja[10:12]
+    odd = [('A', 'conj', ('U', 'X')), ('A', ',', ('U', 'nb')), ('A', 'LRB', ('U', 'dcl'))]      # buildable, though no text spells them
+    return gens.en_atoms(feats=FEATS, bases=('S', 'NP', 'N'), punct=('conj', ',')) + ja[:2] + ja[4:6] + ja[7:9] + ja[10:12] + odd
 
 
 def mutations(v, rng, atoms):
@@ -111,6 +112,7 @@ def near_miss_strings(v, rng):
     out = [t, f'({t})', t + ' ', ' ' + t, t.replace('(', '<').replace(')', '>') if '(' in t else t + ')',
            t.replace('[', '[ ') if '[' in t else t + '[X]', t.replace('/', '\\') if '/' in t else t.replace('\\', '/'),
            refcat.decorate(v, rng), t.lower() if t.lower() != t else t.upper()]
+    out.insert(1, refcat.ref_print(refcat.blind(v)))                            # the same category without its features
     if v[0] == 'F':
         out.append(f'{refcat.ref_print(v[1])}{v[2]}{refcat.ref_print(v[3])}')   # operands unbracketed
     return out
